@@ -168,6 +168,15 @@ class ZXC(Cls):
     def distinct(self, n, rng):
         return [(1, 0)] * n
 
+    def swap(self, l, r):
+        # zx.Diagram.swap accepts PRO types or plain ints on either side (zx.py:34-41): rotate
+        # through the four calling conventions, they must all give the same diagram
+        self._style = getattr(self, "_style", -1) + 1
+        a, b = len(l), len(r)
+        style = self._style % 4
+        args = [(self.PRO(a), self.PRO(b)), (a, b), (a, self.PRO(b)), (self.PRO(a), b)][style]
+        return self.D.swap(*args)
+
 
 # --------------------------------------------------------------------------- the oracle
 
